@@ -179,6 +179,10 @@ def build(spec: dict, ops: list[dict]) -> Session:
     ses = Session(spec)
     if spec.get("mixed_pos"):
         mix_pos(ses, spec)
+    if spec.get("orphan_px") is not None:
+        add_orphan(ses, spec)
+    if spec.get("disable_first"):
+        ses.tracks.disable_features(list(spec["disable_first"]))
     if spec.get("vel"):
         add_vel(ses, spec)
     for op in ops:
@@ -208,7 +212,7 @@ def state_valid(tracks) -> str | None:
         return "lineage-ids-inconsistent"
     if tracks.segmentation is not None:
         seg = tracks.segmentation
-        labels = set(int(x) for x in np.unique(seg)) - {0}
+        labels = set(int(x) for x in np.unique(seg)) - {0} - set(getattr(tracks, "_verif_orphans", ()))
         if labels != set(int(n) for n in g.nodes):
             return "labels-vs-nodes"
     return None
@@ -1333,6 +1337,7 @@ def gen_ro_ops(rng: random.Random, tracks, d: Path) -> list[dict]:
             key=f"get_positions {ns}")
         add("get_positions(incl_time)", lambda: tracks.get_positions(ns, incl_time=True))
         add("get_position", lambda: tracks.get_position(n1))
+        add("get_position(incl_time)", lambda: tracks.get_position(n1, incl_time=True))
         add("get_times", lambda: tracks.get_times(ns), ["5", str(len(ns))] + [str(x) for x in ns], ("nats",),
             key=f"get_times {ns}")
         add("get_time", lambda: tracks.get_time(n1))
@@ -1637,6 +1642,15 @@ def mix_pos(ses: Session, spec: dict) -> None:
             t.graph.nodes[x["id"]]["pos"] = list(v)
 
 
+def add_orphan(ses: Session, spec: dict) -> None:
+    t = ses.tracks
+    flat = t.segmentation.reshape(-1)
+    p_ = spec["orphan_px"]
+    if int(flat[p_]) == 0:
+        flat[p_] = 151
+        t._verif_orphans = (151,)
+
+
 def add_vel(ses: Session, spec: dict) -> None:
     t = ses.tracks
     t.features["vel"] = {"feature_type": "node", "value_type": "float", "num_values": 2,
@@ -1662,6 +1676,18 @@ def make_case(rng: random.Random, intensify: bool, prop: str | None = None) -> t
         spec["mixed_pos"] = [[rng.randrange(0, 30)] + [rng.randrange(0, 40) + rng.choice([0.25, 0.5, 0.75])
                                                          for _ in range(spec["ndim"] - 2)] for _ in spec["nodes"]]
         mix_pos(ses, spec)
+    if spec["cfg"] == "seg" and not spec.get("id_base") and rng.random() < 0.2:
+        # a label of the array that belongs to no node (an unselected detection): exporters and the
+        # save format must carry the array as it is
+        spec["orphan_px"] = rng.randrange(int(np.prod(spec["shape"])))
+        add_orphan(ses, spec)
+    if spec["cfg"] == "seg" and rng.random() < 0.15:
+        spec["disable_first"] = rng.choice([["area"], ["lineage_id"], ["area", "lineage_id"]])
+    elif spec["cfg"] != "seg" and rng.random() < 0.1:
+        spec["disable_first"] = ["lineage_id"]
+    if spec.get("disable_first"):
+        # a core feature switched off before anything is written (the registry must come back as saved)
+        ses.tracks.disable_features(list(spec["disable_first"]))
     if rng.random() < 0.3:
         # a custom registered MULTI-VALUE node feature without value names / display name
         # (every built-in multi-value feature has value names)
